@@ -457,6 +457,26 @@ def mixes_bool_num(e: tuple, want_bool: bool = False) -> bool:
     return False
 
 
+def _no_attr(e: tuple) -> tuple:
+    """`e` with every math.pi / np.e leaf replaced by 1."""
+    k = e[0]
+    if k == "attr":
+        return ("int", 1)
+    if k == "un":
+        return (k, e[1], _no_attr(e[2]))
+    if k == "bin":
+        return (k, e[1], _no_attr(e[2]), _no_attr(e[3]))
+    if k == "cmp":
+        return (k, _no_attr(e[1]), [(o, _no_attr(x)) for o, x in e[2]])
+    if k == "if":
+        return (k, _no_attr(e[1]), _no_attr(e[2]), _no_attr(e[3]))
+    if k == "callname":
+        return (k, e[1], [_no_attr(x) for x in e[2]], e[3])
+    if k == "callattr":
+        return (k, e[1], e[2], [_no_attr(x) for x in e[3]], e[4])
+    return e
+
+
 CORE_FNS = ["sqrt", "abs", "sin", "cos", "tanh", "arctan", "log", "log10", "ceil", "sinh", "arcsinh"]
 
 
@@ -500,7 +520,8 @@ def gen_core_expr(rng, names: list[str], depth: int, flags: set[str]) -> tuple:
     if k == "call1":
         flags.add("function")
         f = rng.choice(CORE_FNS)
-        a = sub()
+        # no pi/e inside a function: sin(pi) is 1.2e-16 in binary64 and 0 for the importer's SymPy, a comparison flips
+        a = _no_attr(sub())
         if f in ("sqrt", "log", "log10"):
             a = ("bin", "Add", ("callname", "abs", [a], False), ("int", 1))
         r = rng.random()
